@@ -151,12 +151,8 @@ func (c *efConfig) run(fn *ssa.Function, tracked map[int]bool, env map[int]bool)
 	}
 	in := map[*ssa.BasicBlock]efState{fn.Blocks[0]: initial}
 	outs := map[*ssa.BasicBlock]efState{}
-	edgeOut := func(b *ssa.BasicBlock, k int, st efState) efState {
-		// validation on the edge b → Succs[k]
-		atom, holds, ok := edgeCond(b, k)
-		if !ok {
-			return st
-		}
+	// simpleClean: the values validated when the atomic condition `atom` evaluates to `holds`
+	simpleClean := func(atom ssa.Value, holds bool) []ssa.Value {
 		var cleaned []ssa.Value
 		if call := callOf(atom); call != nil && holds {
 			if sc := call.Common().StaticCallee(); sc != nil {
@@ -177,6 +173,72 @@ func (c *efConfig) run(fn *ssa.Function, tracked map[int]bool, env map[int]bool)
 			}
 			if idv != nil && ((bo.Op == token.EQL && holds) || (bo.Op == token.NEQ && !holds)) {
 				cleaned = append(cleaned, idv)
+			}
+		}
+		return cleaned
+	}
+	edgeOut := func(b *ssa.BasicBlock, k int, st efState) efState {
+		// validation on the edge b → Succs[k]
+		atom, holds, ok := edgeCond(b, k)
+		if !ok {
+			return st
+		}
+		cleaned := simpleClean(atom, holds)
+		// a short-circuit conjunction used as a value (`case !t.IsZero() && !alive(t): panic`): where it is false, one of its
+		// conjuncts is false; a value validated by the falsity of every conjunct is validated
+		if ph, isPhi := atom.(*ssa.Phi); isPhi && !holds && len(cleaned) == 0 {
+			var common map[ssa.Value]bool
+			okAll := len(ph.Edges) > 0
+			for i, e := range ph.Edges {
+				var si []ssa.Value
+				if cb, isC := constBool(e); isC {
+					if cb || i >= len(ph.Block().Preds) {
+						okAll = false
+						break
+					}
+					pb := ph.Block().Preds[i]
+					found, infeasible := false, false
+					for kk, sx := range pb.Succs {
+						if sx == ph.Block() {
+							if !feasibleEdge(pb, kk, env) {
+								infeasible = true // the option flag tested there is known in this calling context
+								continue
+							}
+							if a2, h2, ok2 := edgeCond(pb, kk); ok2 {
+								si = simpleClean(a2, h2)
+								found = true
+							}
+						}
+					}
+					if infeasible && !found {
+						continue
+					}
+					if !found {
+						okAll = false
+						break
+					}
+				} else {
+					a2, neg := condAtom(e)
+					si = simpleClean(a2, neg)
+				}
+				set := map[ssa.Value]bool{}
+				for _, v := range si {
+					set[originOf(v)] = true
+				}
+				if common == nil {
+					common = set
+				} else {
+					for v := range common {
+						if !set[v] {
+							delete(common, v)
+						}
+					}
+				}
+			}
+			if okAll {
+				for v := range common {
+					cleaned = append(cleaned, v)
+				}
 			}
 		}
 		if len(cleaned) == 0 {
